@@ -194,6 +194,16 @@ def check_case(cell, bundle, ctx):
                 extra["numpy.isclose"] = _bools(numpy.isclose(A, B, rt, at))
                 extra["allclose"] = bool(A.allclose(B, rt, at))
                 extra["numpy.allclose"] = bool(numpy.allclose(A, B, rt, at))
+                # the function forms when NumPy hands the call to the *second* operand's class: a momentum array on the
+                # right of a generic one, and a single object on the left of an array
+                Bm = build.make(be, sb, RB, momentum=True)
+                extra["numpy.isclose(generic, momentum)"] = _bools(numpy.isclose(A, Bm, rt, at))
+                extra["numpy.allclose(generic, momentum)"] = bool(numpy.allclose(A, Bm, rt, at))
+                o0 = mpbackend.make(sa, RA[0], False, False)
+                extra["obj.isclose(array)"] = _bools(o0.isclose(B, rt, at))
+                extra["numpy.isclose(object, array)"] = _bools(numpy.isclose(o0, B, rt, at))
+                extra["numpy.equal(object, array)"] = _bools(numpy.equal(o0, B))
+                extra["obj.equal(array)"] = _bools(o0.equal(B))
             elif be == "awkward":
                 extra["allclose"] = bool(A.allclose(B, rt, at))
         except Exception as e:  # noqa: BLE001
@@ -247,7 +257,17 @@ def check_case(cell, bundle, ctx):
             if any(m) and not all(m):
                 ctx.nontrivial(key=[a_, b_, subs[i]["rtol"], subs[i]["atol"]], sample={"a": a_, "b": b_, "mask": m, "pert": subs[i]["pert"]})
             ctx.stratum("changed:" + str(sum(m)))
-        for nm in ("allclose", "numpy.allclose"):
+        for nm, ref_nm in (("numpy.isclose(generic, momentum)", None), ("numpy.isclose(object, array)", "obj.isclose(array)"),
+                           ("numpy.equal(object, array)", "obj.equal(array)")):
+            if nm in extra:
+                want_ = r["isclose"] if ref_nm is None else extra[ref_nm]
+                if extra[nm] != want_:
+                    fail("spelling", f"{nm} gives {extra[nm]} but the method form gives {want_} (a={RA[idx[0]]} b rows={RB[:2]}...)",
+                         "isclose" if "isclose" in nm else "equal"); return
+        if "obj.isclose(array)" in extra and extra["obj.isclose(array)"][0] != r["isclose"][0]:
+            fail("spelling", f"object.isclose(array)[0] gives {extra['obj.isclose(array)'][0]} but array.isclose(array)[0] gives {r['isclose'][0]}",
+                 "isclose"); return
+        for nm in ("allclose", "numpy.allclose", "numpy.allclose(generic, momentum)"):
             if nm in extra and extra[nm] != all(r["isclose"]):
                 fail("spelling", f"{nm} gives {extra[nm]} but all(isclose) is {all(r['isclose'])}", "allclose"); return
     ctx.evaluations -= 1
